@@ -49,6 +49,8 @@ func runModeCtx(m string, mc *modeCtx) []*checkItem {
 		return modeConcurrency(mc)
 	case "nondet.inventory":
 		return modeNondet(mc)
+	case "globals.shared":
+		return modeGlobalsShared(mc)
 	case "monitor.frame":
 		return modeMonitorFrame(mc)
 	case "args.frame":
@@ -576,6 +578,130 @@ func modeArgsFrame(mc *modeCtx) []*checkItem {
 	}
 	if len(items) == 0 {
 		items = append(items, okItem("args.frame/layout", "frame", fmt.Sprintf("%d functions reachable from Layout: no element assignment, append, copy, sort, delete or clear on a []string, [][]string or map[string]Size", n)))
+	}
+	return items
+}
+
+// ---------------------------------------------------------------------------
+// no mutable memory is reachable from the initial value of a package-level variable: a map, slice, pointer, channel,
+// function value or interface stored there would be shared by all calls (state surviving from call to call, and
+// sharing between concurrent calls) even when the variable itself is only read and copied.
+
+func hasRefKind(t types.Type, seen map[types.Type]bool) bool {
+	t = types.Unalias(t)
+	if seen[t] {
+		return false
+	}
+	seen[t] = true
+	switch u := t.Underlying().(type) {
+	case *types.Map, *types.Slice, *types.Pointer, *types.Chan, *types.Signature, *types.Interface:
+		return true
+	case *types.Struct:
+		for i := 0; i < u.NumFields(); i++ {
+			if hasRefKind(u.Field(i).Type(), seen) {
+				return true
+			}
+		}
+	case *types.Array:
+		return hasRefKind(u.Elem(), seen)
+	}
+	return false
+}
+
+// refFreeInit reports a reason when the initializer expression may put a non-nil reference into the value.
+func refFreeInit(info *types.Info, e ast.Expr, t types.Type) string {
+	if !hasRefKind(t, map[types.Type]bool{}) {
+		return ""
+	}
+	e = ast.Unparen(e)
+	if id, ok := e.(*ast.Ident); ok {
+		if id.Name == "nil" {
+			return ""
+		}
+		// another package-level variable: its own initializer is checked separately (value copy shares what it references)
+		if v, ok := info.ObjectOf(id).(*types.Var); ok && v.Pkg() != nil && v.Parent() == v.Pkg().Scope() {
+			return ""
+		}
+	}
+	cl, ok := e.(*ast.CompositeLit)
+	if !ok {
+		return "initializer " + types.ExprString(e) + " is not a literal whose reference-typed parts can be seen to be nil"
+	}
+	switch u := types.Unalias(t).Underlying().(type) {
+	case *types.Struct:
+		for i, el := range cl.Elts {
+			var f *types.Var
+			val := el
+			if kv, ok := el.(*ast.KeyValueExpr); ok {
+				val = kv.Value
+				if id, ok := kv.Key.(*ast.Ident); ok {
+					for j := 0; j < u.NumFields(); j++ {
+						if u.Field(j).Name() == id.Name {
+							f = u.Field(j)
+						}
+					}
+				}
+			} else if i < u.NumFields() {
+				f = u.Field(i)
+			}
+			if f == nil {
+				return "unrecognised field in initializer"
+			}
+			if r := refFreeInit(info, val, f.Type()); r != "" {
+				return "field " + f.Name() + ": " + r
+			}
+		}
+		return ""
+	case *types.Array:
+		for _, el := range cl.Elts {
+			if kv, ok := el.(*ast.KeyValueExpr); ok {
+				el = kv.Value
+			}
+			if r := refFreeInit(info, el, u.Elem()); r != "" {
+				return r
+			}
+		}
+		return ""
+	}
+	return "initializer " + types.ExprString(e) + " creates a " + t.String() + " that every call would share"
+}
+
+func modeGlobalsShared(mc *modeCtx) []*checkItem {
+	var items []*checkItem
+	n := 0
+	for _, p := range mc.pr.Pkgs {
+		info := p.TypesInfo
+		for _, f := range p.Syntax {
+			if strings.HasSuffix(mc.pr.Fset.Position(f.Pos()).Filename, "_test.go") {
+				continue
+			}
+			for _, d := range f.Decls {
+				gd, ok := d.(*ast.GenDecl)
+				if !ok || gd.Tok != token.VAR {
+					continue
+				}
+				for _, sp := range gd.Specs {
+					vs := sp.(*ast.ValueSpec)
+					for i, nm := range vs.Names {
+						v, ok := info.Defs[nm].(*types.Var)
+						if !ok || nm.Name == "_" {
+							continue
+						}
+						n++
+						name := "globals/shared/G$" + pkgShort(p.PkgPath) + "." + nm.Name
+						if i >= len(vs.Values) {
+							continue // zero value: every reference is nil
+						}
+						if r := refFreeInit(info, vs.Values[i], v.Type()); r != "" {
+							items = append(items, failItem(name, "inventory", "package-level variable "+nm.Name+" may hold shared mutable memory: "+r, mc.pos(nm.Pos())))
+						}
+					}
+				}
+			}
+		}
+	}
+	if len(items) == 0 {
+		items = append(items, okItem("globals/shared", "inventory", fmt.Sprintf("%d package-level variables: no map, slice, pointer, channel, function or interface value is reachable from any initial value", n)))
 	}
 	return items
 }
